@@ -71,7 +71,7 @@ def generate(ctx, wd, bases, name, params):
     tlc.write_ndjson(pp, [params])
     spool = os.path.join(wd, "cases_%s.spool" % name)
     res = tlc.run("Ident", "IdentGen.cfg", env={"IDENT_BASES": bp, "IDENT_PARAMS": pp}, spool=spool,
-                  tag="c20gen" + name,
+                  tag="c20gen" + name, workers=2,   # the sequences are drawn in Init, which TLC enumerates sequentially
                   timeout=3000)
     ctx.add_tlc(res, "G:IdentGen.cfg:" + name)
     cases = list(tlc.iter_spool(spool))
